@@ -947,6 +947,19 @@ class FuncEnv(Env):
             return self.comp[name]
         f = self.f
         while f is not None:
+            if name in f.local_imports:
+                mod, attr = f.local_imports[name]
+                if attr is None:
+                    return T(("module", mod))
+                if mod in self.db.modules:
+                    r = self.db.resolve_global(mod, attr)
+                    if r and r[0] == "func":
+                        return T(("func", r[1].qual))
+                    if r and r[0] == "class":
+                        return T(("class", r[1].qual))
+                    if r and r[0] == "global":
+                        return self.ty.glob.get((r[1], r[2]), EMPTY)
+                return T(("ext", mod + "." + attr))
             if name in f.locals and name not in f.declared_global:
                 t = self.ty.local.get((f.qual, name), EMPTY)
                 if name in f.params:
